@@ -66,6 +66,7 @@ def main():
                     snaps = tr.run_finalize()
                     res['snaps'] = [[l, f] for (l, f) in snaps]
                     res['schedule'] = vd.schedule(vform, V)
+                    res['cse'] = tr.cse_records
                 except vd.TooBig:
                     res['status'] = 'TooBig'
                 except vd.UnknownNode as e:
